@@ -305,6 +305,17 @@ package boltz
 //@   nosafety
 //@   modifies cowLen[store.entityConstraints], cowAt[store.entityConstraints], cowTyp[store.entityConstraints]
 //@   ensures[one-adapter-for-every-given-type] cowLen[store.entityConstraints] == old(cowLen[store.entityConstraints]) + 1 && istype(appended(store), *untypedEventListenerWrapper) && listensFor(appended(store), changeType, changeTypes)
+// the id listener's adapter hands the listener the entity's id, once per delivery
+//@ ghost idlCnt : (Array Int Int) private
+//@ ghost idlArg : (Array Int (Array Int Str)) private
+//@ funcparam (*BaseStore).AddEntityIdListener.listener(id)
+//@   modifies *, idlCnt[self], idlArg[self]
+//@   ensures idlCnt[self] == old(idlCnt[self]) + 1 && idlArg[self] == sto(old(idlArg[self]), old(idlCnt[self]), id)
+//@ func (*BaseStore).AddEntityIdListener$1
+//@   props C08
+//@   nosafety
+//@   modifies *, idlCnt, idlArg
+//@   ensures[the-id-listener-is-told-the-entity's-id-once] idlCnt[old(*fv(listener))] == old(idlCnt[*fv(listener)]) + 1 && sel(idlArg[old(*fv(listener))], old(idlCnt[*fv(listener)])) == entId(ref(entity))
 //@ func (*BaseStore).AddEntityEventListenerF
 //@   props C08
 //@   nosafety
